@@ -32,13 +32,10 @@ Print Assumptions C17_candidate_is_definition.
 Theorem C17_listed_iff : forall o l res, clashes_from o 0 l = Ok res ->
     forall i j, In (i, j) res <->
       exists a b, i < j /\ nth_error l i = Some a /\ nth_error l j = Some b /\ pair_ok o a b = true.
-Proof.
-  intros o l res H i j. rewrite (listed_iff o l 0 res H i j). rewrite !Nat.sub_0_r.
-  split; intros (a & b & X); exists a, b; intuition lia.
-Qed.
+Proof. exact listed_iff0. Qed.
 Print Assumptions C17_listed_iff.
 
 (* ... each pair once *)
 Theorem C17_listed_once : forall o l res, clashes_from o 0 l = Ok res -> NoDup res.
-Proof. intros o l res H. exact (proj1 (listed_once o l 0 res H)). Qed.
+Proof. exact listed_once0. Qed.
 Print Assumptions C17_listed_once.
